@@ -452,14 +452,17 @@ def spec_stream(ctx, calls, impl):
     import decimal
     H = ctx.histogram
     parsed = [parse_fmt(f) for _x, f, *_ in calls]
+    coq = [None] * (2 * len(calls))
     if ctx.model:
+        cap = 150000                  # stream (1) on every call of the quick tier, on a PRNG sample of the thorough one
+        idx = list(range(len(calls))) if len(calls) <= cap else sorted(ctx.rng.sample(range(len(calls)), cap))
         batch = []
-        for (x, f, *_), fm in zip(calls, parsed):
+        for j in idx:
+            x, f = calls[j][0], calls[j][1]
             for mode in (0, 1):
                 batch.append(('text_spec', [enc_val(mode), enc_val(x), enc_val(f)]))
-        coq = [dec_res(r) for r in ctx.model.batch(batch)]
-    else:
-        coq = [None] * (2 * len(calls))
+        for n, r in enumerate(ctx.model.batch(batch)):
+            coq[2 * idx[n // 2] + n % 2] = dec_res(r)
     for j, ((x, f, *_), fm, i) in enumerate(zip(calls, parsed, impl)):
         case = dict(call='text', args=[x, f])
         exact = fractions.Fraction(0 if x is None else x)
@@ -518,7 +521,7 @@ def text_part(ctx, F):
         fmts.append((extra, None, None, None))
     for _ in range(ctx.n(60, 1500)):
         fmts.append(("".join(ctx.rng.choice('0#,.%00##') for _ in range(ctx.rng.randrange(1, 7))), None, None, None))
-    for _ in range(ctx.n(60, 1500)):              # formats drawn from the grammar of C20TextSpec.v itself
+    for _ in range(ctx.n(60, 600)):               # formats drawn from the grammar of C20TextSpec.v itself
         fmts.append((rand_grammar_format(ctx.rng), None, None, None))
     calls = []
     for x in nums:
